@@ -63,7 +63,8 @@ CONFIG = dict(
          "random 5..20 posts incl. repeats and the busy mailbox itself), posters beyond the 9 slots block, release, posts to the idle dispatcher, optionally a second gated round; "
          "per step: delivered ids, invocations off the loop goroutine, handlers in flight, blocked posters. "
          "Run main additionally: slow SYSTEM handlers (pause started by a system message, incl. the directed suspend / slow system message / resume template) and schedule mode 4 "
-         "(delay-bounded victim: one poster takes 1-4 steps exactly when the consumer is about to store idle, then is held until the consumer finished going idle)",
+         "(delay-bounded victim: one poster takes 1-4 steps exactly when the consumer is about to store idle, then is held until the consumer finished going idle); "
+         "1/5 of the 2-6-message senders post an actor.MessageBatch (raw or inside a MessageEnvelope): the mailbox posts the elements, then the batch message itself",
     trusted_base=[
         "Lean 4.33.0 kernel; axioms audited per theorem (propext, Classical.choice, Quot.sound)",
         "hand-written models lean/Cell2v/Model/Mailbox.lean (Abs + Fine) tied to actorex/mailbox/mailbox.go by step-by-step replay (harness/c09 + modeld_c09)",
